@@ -68,7 +68,7 @@ type LambdaScript struct {
 
 // CopyBehaviour scripts VirtualizationCopyChunkTo / CopyTo.
 type CopyBehaviour struct {
-	Mode      string // ok | error | partial
+	Mode      string // ok | error | partial | slow (a reader slower than the producer: waits, then reads small pieces)
 	ReadBytes int64  // partial: read this many bytes, then fail
 }
 
@@ -386,8 +386,23 @@ func (e *Engine) VirtualizationCopyChunkTo(ctx context.Context, ID, target strin
 			_, _ = io.CopyN(io.Discard, content, b.ReadBytes)
 			return fmt.Errorf("memengine: copy to %s aborted after %d bytes", short(ID), b.ReadBytes)
 		}
-		data, err := io.ReadAll(content)
-		if err != nil {
+		var data []byte
+		var err error
+		if b.Mode == "slow" {
+			time.Sleep(40 * time.Millisecond)
+			buf := make([]byte, 700)
+			for {
+				n, rerr := content.Read(buf)
+				data = append(data, buf[:n]...)
+				if rerr == io.EOF {
+					break
+				}
+				if rerr != nil {
+					return rerr
+				}
+				time.Sleep(150 * time.Microsecond)
+			}
+		} else if data, err = io.ReadAll(content); err != nil {
 			return err
 		}
 		e.host.mu.Lock()
